@@ -678,7 +678,7 @@ func (o *baseObject) _defineOwnProperty(name unistring.String, existingValue Val
 				goto Reject
 			}
 		}
-		if existing.accessor && descr.Value != nil || !existing.accessor && (getterObj != nil || setterObj != nil) {
+		if existing.accessor && (descr.Value != nil || descr.Writable != FLAG_NOT_SET) || !existing.accessor && (descr.Getter != nil || descr.Setter != nil) {
 			if !existing.configurable {
 				goto Reject
 			}
@@ -704,6 +704,19 @@ func (o *baseObject) _defineOwnProperty(name unistring.String, existingValue Val
 
 	if descr.Writable == FLAG_TRUE && descr.Enumerable == FLAG_TRUE && descr.Configurable == FLAG_TRUE && descr.Value != nil {
 		return descr.Value, true
+	}
+
+	if existing.accessor && (descr.Value != nil || descr.Writable != FLAG_NOT_SET) {
+		// accessor -> data: attributes that are not carried over take their defaults
+		existing.accessor = false
+		existing.getterFunc = nil
+		existing.setterFunc = nil
+		existing.writable = false
+	} else if !existing.accessor && (descr.Getter != nil || descr.Setter != nil) {
+		// data -> accessor
+		existing.accessor = true
+		existing.value = nil
+		existing.writable = false
 	}
 
 	if descr.Writable != FLAG_NOT_SET {
